@@ -18,7 +18,8 @@ typedef struct {
   int cmode;                    /* single-char mode */
   int n, partial, spread;       /* queue script */
   int special;                  /* 0 none, 1 first line is "m", 2 first line is "q" */
-  char item[6][8]; int nitem, served;    /* line mode: complete lines delivered so far / consumed */
+  int nitem, served;            /* line mode: complete lines delivered so far / consumed (texts: item_text()) */
+  int backlog, bl_cap;          /* long backlog: `backlog` numbered lines pasted in one write in cycle 1; recv() hands over <= bl_cap bytes per read (0 = no cap) */
   char pend[40];                /* char mode: bytes delivered and not yet consumed */
   int expect, got;              /* this cycle */
   char got_text[40];
@@ -33,9 +34,12 @@ static const char letter[NU] = { 'k', 'a', 'b', 'c', 'n' };
 
 static int w;                   /* wait-hook calls so far */
 static int mid_kind, mid_user, mid_cycle;       /* 0 none, 1 connect, 2 hang-up, 3 peer vanishes with output pending (send: EWOULDBLOCK, then EPIPE) */
-static long fl_word; static int full_flags, console_scripts = 6;
+static long fl_word; static int full_flags, console_scripts = 6, full_backlog;
+/* which deviation kinds are offered (--dev=mask): 1 single-char mode, 2 special m/q, 4 special i/g (flags word), 8 mid-cycle connect/hang-up,
+ * 16 mid-cycle vanishing peer, 32 long backlog */
+static long dev = 63;
 static int selftest, midcycles = 4, force_m;
-static int shutdown_sent, drains;
+static int shutdown_sent, drains, drain_limit = 6, bl_seen;
 static int last_served = -1;    /* for the command()-inside-one-turn check */
 static int cycle_no;            /* main cycle being evaluated (0 = set-up) */
 static int cycles_evaluated;
@@ -68,14 +72,29 @@ static void line_text (muser *u, int k, char *out) {   /* k = 1.. */
   else sprintf (out, "%c%d", letter[ui], k);
 }
 
+/* text of the k-th (0..) complete line of user u, in the order sent */
+static void item_text (muser *u, int k, char *out) {
+  int ui = (int) (u - U);
+  if (u->backlog) sprintf (out, "%c%03d", letter[ui], k);
+  else if (ui == 4) strcpy (out, "n1");
+  else line_text (u, k + 1, out);
+}
+
 /* bytes user u sends in main cycle c (1..5); appends to the model what becomes available */
 static int arrivals (muser *u, int c, char *buf) {
   int len = 0;
   int ui = (int) (u - U);
   buf[0] = 0;
   if (ui == 4) {                /* the late user sends one line in the cycle after it connected */
-    if (mid_kind == 1 && c == mid_cycle + 1) { strcpy (buf, "n1\r\n"); strcpy (u->item[u->nitem++], "n1"); return 4; }
+    if (mid_kind == 1 && c == mid_cycle + 1) { strcpy (buf, "n1\r\n"); u->nitem++; return 4; }
     return 0;
+  }
+  if (u->backlog) {             /* the whole paste in one write; the driver reads it piecewise over the following cycles */
+    if (c != 1) return 0;
+    for (int k = 0; k < u->backlog; k++) len += sprintf (buf + len, "%c%03d\r\n", letter[ui], k);
+    if (u->partial) len += sprintf (buf + len, "%cP", letter[ui]);
+    u->nitem = u->backlog;
+    return len;
   }
   for (int k = 1; k <= u->n + u->partial; k++) {
     int at = u->spread ? k : 1;
@@ -87,7 +106,7 @@ static int arrivals (muser *u, int c, char *buf) {
     } else if (k <= u->n) {
       char t[8]; line_text (u, k, t);
       len += sprintf (buf + len, "%s%s", t, u->console ? "\n" : "\r\n");
-      strcpy (u->item[u->nitem++], t);
+      u->nitem++;
     } else if (!u->console) {
       len += sprintf (buf + len, "%cP", letter[ui]);        /* never completed: must never be served */
     }
@@ -156,9 +175,10 @@ static void end_cycle (void) {
           fail_hist ("C12:order-violated:char-mode", "user %c (single-char mode) was handed \"%s\" in cycle %d, pending bytes were \"%s\"", letter[i], u->got_text, cycle_no, u->pend);
         else memmove (u->pend, u->pend + l, strlen (u->pend + l) + 1);
       } else {
-        if (u->served >= u->nitem || strcmp (u->item[u->served], u->got_text))
-          fail_hist ("C12:order-violated", "user %c was handed \"%s\" in cycle %d, next complete line in its queue was \"%s\"", letter[i], u->got_text, cycle_no,
-                     u->served < u->nitem ? u->item[u->served] : "(none)");
+        char want[16] = "(none)";
+        if (u->served < u->nitem) item_text (u, u->served, want);
+        if (u->served >= u->nitem || strcmp (want, u->got_text))
+          fail_hist (u->backlog ? "C12:order-violated:long-backlog" : "C12:order-violated", "user %c was handed \"%s\" in cycle %d, next complete line in its queue was \"%s\"", letter[i], u->got_text, cycle_no, want);
         if (u->served < u->nitem) u->served++;
       }
       vx_count (1, 1);
@@ -184,6 +204,11 @@ static int hook (io_event_t *ev, int max, struct timeval *tmo) {
   for (int i = 0; i < NU; i++)
     if (U[i].live && U[i].connected && U[i].deadw != 2 && has_complete (&U[i]) && tmo && (tmo->tv_sec || tmo->tv_usec))
       fail_hist ("C12:loop-blocks-with-command-pending", "wait %d is entered with timeout %lds although user %c has a complete command buffered", w, (long) tmo->tv_sec, letter[i]);
+  /* measured: did the long backlog reach the buffer-shift region (text_end beyond (MAX_TEXT-1) - 3*(MAX_TEXT/16), text_start > 0)? */
+  for (int i = 1; i <= 3; i++) if (U[i].backlog && !bl_seen && all_users) {
+    int sl = nl_slot_of_fd (env_clients[i - 1].fd);
+    if (sl > 0 && all_users[sl]->text_start > 0 && (MAX_TEXT - (int) all_users[sl]->text_end - 1) / 3 < MAX_TEXT / 16) { bl_seen = 1; vx_count (3, 1); }
+  }
   cycle_no = 0;
   if (w < 3) {                                  /* set-up: three clients connect, one per cycle */
     env_cli *c = env_connect (0);
@@ -210,7 +235,7 @@ static int hook (io_event_t *ev, int max, struct timeval *tmo) {
         u->deadw = 2;             /* nothing more arrives from it; what is already buffered may still be run */
         continue;
       }
-      char buf[64]; int len = c <= 5 ? arrivals (u, c, buf) : 0;
+      static char buf[4096]; int len = c <= 5 ? arrivals (u, c, buf) : 0;
       if (!len) continue;
       vx_obs ("  user %c sends %d bytes", letter[i], len);
       if (u->console) {
@@ -228,7 +253,7 @@ static int hook (io_event_t *ev, int max, struct timeval *tmo) {
   } else {                                      /* drain: quiet cycles until every queue is empty */
     int pending = 0;
     for (int i = 0; i < NU; i++) if (U[i].live && U[i].connected && U[i].deadw != 2 && has_complete (&U[i])) pending = 1;
-    if (pending && drains < 6) { drains++; cycle_no = 5 + drains; vx_obs ("cycle %d (quiet)", cycle_no); }
+    if (pending && drains < drain_limit) { drains++; cycle_no = 5 + drains; vx_obs ("cycle %d (quiet)", cycle_no); }
     else {
       for (int i = 0; i < NU; i++) if (U[i].live && U[i].connected && U[i].deadw != 2 && has_complete (&U[i]))
         fail_hist ("C12:command-never-served", "user %c still has a complete command buffered after %d quiet cycles", letter[i], drains);
@@ -241,6 +266,7 @@ static int hook (io_event_t *ev, int max, struct timeval *tmo) {
   if (cycle_no) for (int i = 0; i < NU; i++) U[i].expect = U[i].live && U[i].connected && U[i].logged_on && has_complete (&U[i]) && !(U[i].deadw == 2);
   for (int i = 0; i < ENV_MAXCLI; i++) {
     env_cli *c = &env_clients[i];
+    if (nl_client_live (c) && c->registered && c->accepted && c->in_pos < c->in_len && !c->peer_closed) n = add_cli_event (ev, n, c, EVENT_READ);   /* unread bytes: readable (level-triggered) */
     if (mid_kind == 3 && i == mid_user - 1) continue;           /* never writable */
     if (nl_client_live (c) && c->registered && (c->interest & EVENT_WRITE) && !c->peer_closed) n = add_cli_event (ev, n, c, EVENT_WRITE);
   }
@@ -254,6 +280,14 @@ static long send_hook (env_cli *c, const void *buf, size_t len) {
   if (mid_kind == 3 && c->id == mid_user - 1)      /* client ids equal the connect order: user 1..3 is client 0..2 */
     return U[mid_user].deadw == 2 ? -EPIPE : -EWOULDBLOCK;
   return (long) len;
+}
+
+/* the backlog user's socket hands over at most bl_cap bytes per read */
+static long recv_hook (env_cli *c, size_t avail, size_t want) {
+  size_t n = avail < want ? avail : want;
+  for (int i = 1; i <= 3; i++) if (U[i].backlog && U[i].bl_cap && c->id == i - 1 && n > (size_t) U[i].bl_cap) n = (size_t) U[i].bl_cap;
+  if (!avail) return c->peer_closed ? 0 : -EWOULDBLOCK;
+  return (long) n;
 }
 
 static void body (void) {
@@ -279,16 +313,16 @@ static void body (void) {
     } else { s = vx_choose_free (nscripts, lab); nlive_net++; }
     U[i].n = scripts[s].n; U[i].partial = scripts[s].partial; U[i].spread = scripts[s].spread;
   }
-  for (int i = 1; i <= 3; i++) if (U[i].live) { char lab[28]; snprintf (lab, sizeof lab, "cmode_%c", letter[i]); U[i].cmode = vx_choose (2, lab); }
+  for (int i = 1; i <= 3; i++) if (U[i].live) { char lab[28]; snprintf (lab, sizeof lab, "cmode_%c", letter[i]); U[i].cmode = (dev & 1) ? vx_choose (2, lab) : 0; }
   {
     int list[MAXSPECIAL], kind[MAXSPECIAL], nl = 0;
     list[nl] = -1; kind[nl++] = 0;
-    for (int i = 0; i <= 3; i++) if (U[i].live && U[i].n >= 1 && !U[i].cmode) { list[nl] = i; kind[nl++] = 1; }
-    for (int i = 1; i <= 3; i++) if (U[i].live && U[i].n >= 1 && !U[i].cmode) { list[nl] = i; kind[nl++] = 2; }
+    for (int i = 0; i <= 3; i++) if ((dev & 2) && U[i].live && U[i].n >= 1 && !U[i].cmode) { list[nl] = i; kind[nl++] = 1; }
+    for (int i = 1; i <= 3; i++) if ((dev & 2) && U[i].live && U[i].n >= 1 && !U[i].cmode) { list[nl] = i; kind[nl++] = 2; }
     /* `i` / `g`: the first line's handler calls input_to(fn, F) / get_char(fn, F) while the same user has further lines
      * typed ahead; offered for the first such user of the arrangement (every user is "the first" in some layout) */
     int fu = -1;
-    for (int i = 0; i <= 3 && fu < 0; i++) if (U[i].live && U[i].n >= 2 && !U[i].cmode) fu = i;
+    for (int i = 0; i <= 3 && fu < 0; i++) if ((dev & 4) && U[i].live && U[i].n >= 2 && !U[i].cmode) fu = i;
     static const long FW[] = { 0x1000, 0x7fffffff, 0x80, 0, 1, 2, 4, 0x10, 0x20, 0x40, 0x100, 0x400, 0x800 };
     int first_flag = nl, nit = full_flags ? 13 : 3, ngc = full_flags ? 13 : 1;
     if (fu >= 0) {
@@ -303,11 +337,32 @@ static void body (void) {
   {
     int mk[40], mu[40], mc[40], nl = 0;
     mk[nl] = 0; mu[nl] = 0; mc[nl++] = 0;
-    for (int c = 1; c <= midcycles; c++) { mk[nl] = 1; mu[nl] = 4; mc[nl++] = c; }
-    for (int i = 1; i <= 3; i++) if (U[i].live) for (int c = 1; c <= midcycles; c++) { mk[nl] = 2; mu[nl] = i; mc[nl++] = c; }
-    for (int i = 1; i <= 3; i++) if (U[i].live) for (int c = 1; c <= midcycles; c++) { mk[nl] = 3; mu[nl] = i; mc[nl++] = c; }
+    for (int c = 1; c <= midcycles && (dev & 8); c++) { mk[nl] = 1; mu[nl] = 4; mc[nl++] = c; }
+    for (int i = 1; i <= 3; i++) if (U[i].live && (dev & 8)) for (int c = 1; c <= midcycles; c++) { mk[nl] = 2; mu[nl] = i; mc[nl++] = c; }
+    for (int i = 1; i <= 3; i++) if (U[i].live && (dev & 16)) for (int c = 1; c <= midcycles; c++) { mk[nl] = 3; mu[nl] = i; mc[nl++] = c; }
     int c = vx_choose (nl, "mid");
     mid_kind = mk[c]; mid_user = mu[c]; mid_cycle = mc[c];
+  }
+  {
+    /* long backlog: one line-mode network user pastes `B` numbered lines (6 bytes each on the wire, 7 in the input buffer)
+     * in one write: more than the buffer-shift threshold (text_end > 1663) and than MAX_TEXT (2048) for B = 300.  Offered for
+     * the first eligible user of the arrangement (all_backlog: for every one). */
+    static const int VB[] = { 300, 300, 300, 300, 120, 120, 120, 120 }, VP[] = { 1, 0, 0, 1, 1, 0, 0, 1 }, VC[] = { 0, 97, 0, 97, 0, 97, 0, 97 };
+    int bu[32], bv[32], nl = 1, nvar = full_backlog ? 8 : 2;
+    for (int i = 1; i <= 3; i++) {
+      if (!(dev & 32)) break;
+      if (!U[i].live || U[i].cmode || U[i].special || (mid_kind >= 2 && mid_user == i)) continue;
+      /* the paste replaces the user's own script: offer it once, from the empty script (no duplicates) */
+      if (U[i].n || U[i].partial) { if (full_backlog) continue; else break; }
+      /* default: the other users have single commands (0 or 1 complete line); --full-backlog=1: any script */
+      int others_ok = 1;
+      for (int j = 0; j <= 3; j++) if (j != i && U[j].live && (U[j].n > 1 || U[j].partial)) others_ok = 0;
+      if (!full_backlog && !others_ok) break;
+      for (int v = 0; v < nvar; v++) { bu[nl] = i; bv[nl++] = v; }
+      if (!full_backlog) break;
+    }
+    int c = vx_choose (nl, "backlog");
+    if (c) { muser *u = &U[bu[c]]; u->backlog = VB[bv[c]]; u->partial = VP[bv[c]]; u->bl_cap = VC[bv[c]]; u->n = 0; u->spread = 0; drain_limit = 6 + u->backlog + 8; }
   }
   /* modes in logon order: console (if any) first, then the three clients, then the late user */
   has_console = console;
@@ -318,12 +373,13 @@ static void body (void) {
   if (selftest == 2) { push_number (2); hx_apply (po, "set_st", 1); }
   push_number (fl_word); hx_apply (po, "set_fl", 1);
   vx_obs ("console=%d keep=%d mid=%d/%c/%d flags=0x%lx", console, keep, mid_kind, letter[mid_user], mid_cycle, fl_word);
-  for (int i = 0; i <= 3; i++) if (U[i].live) vx_obs ("  user %c: n=%d partial=%d spread=%d cmode=%d special=%d", letter[i], U[i].n, U[i].partial, U[i].spread, U[i].cmode, U[i].special);
+  for (int i = 0; i <= 3; i++) if (U[i].live) vx_obs ("  user %c: n=%d partial=%d spread=%d cmode=%d special=%d backlog=%d cap=%d", letter[i], U[i].n, U[i].partial, U[i].spread, U[i].cmode, U[i].special, U[i].backlog, U[i].bl_cap);
   MAIN_OPTION (console_mode) = console;
   env_isatty_value = 1;
   env_console_capture = 1;
   env_wait_hook = hook;
   env_send_hook = send_hook;
+  env_recv_hook = recv_hook;
   nl_log_pos = lseek (2, 0, SEEK_END);
   backend ();
   if (!shutdown_sent) fail_hist ("C12:backend-returned-early", "backend() returned after %d waits", w);
@@ -337,6 +393,8 @@ int main (int argc, char **argv) {
   selftest = (int) vx_opt_long ("selftest", 0);
   force_m = (int) vx_opt_long ("force-m", 0);
   console_scripts = (int) vx_opt_long ("console-scripts", 6);
+  dev = vx_opt_long ("dev", 63);
+  full_backlog = (int) vx_opt_long ("full-backlog", 0);  /* 1: 8 backlog variants for every eligible user; 0: 2 variants for the first one */
   full_flags = (int) vx_opt_long ("full-flags", 0);   /* 1: all 13 flag words for input_to and get_char; 0: {0x1000, 0x7fffffff, 0x80} / {0x1000} */
   midcycles = (int) vx_opt_long ("midcycles", 4);      /* mid-cycle connect / hang-up placed in cycles 1..midcycles */
   if (midcycles < 0) midcycles = 0;
@@ -350,5 +408,6 @@ int main (int argc, char **argv) {
   vx_count_name (0, "arrangements_completed");
   vx_count_name (1, "buffered_commands_served");
   vx_count_name (2, "cycles_evaluated");
+  vx_count_name (3, "backlog_runs_in_shift_region");
   return vx_run (argc, argv, body);
 }
